@@ -1094,7 +1094,7 @@ func main() {
 		kind string
 		a, b int
 	}
-	list := []sc{{"cut-scripted", 1, 1}, {"cut-scripted", 2, 2}, {"cut", 1, 1}, {"cut", 2, 2}, {"restart", 1, 2}, {"restart", 3, 1}, {"restart", 2, 1}}
+	list := []sc{{"cut-scripted", 1, 1}, {"cut-scripted", 2, 2}, {"cut", 1, 1}, {"cut", 2, 2}, {"restart", 1, 2}, {"restart", 5, 1}, {"restart", 2, 1}}
 	if o.Thorough() {
 		for i := 0; i < 12; i++ {
 			k := e.rnd.Pick(0, 1, 2)
@@ -1108,10 +1108,11 @@ func main() {
 			break
 		}
 		// the id collision of C26.recreate-failure-ignored depends on the order in
-		// which Go iterates over c.subs (5 of 6 orders with three subscriptions):
-		// run its witness scenario again until the colliding order came up
-		if s.kind == "restart" && s.a == 3 {
-			for i := 0; i < 3 && r.InfraError == ""; i++ {
+		// which Go iterates over c.subs: a small map is walked from a random slot,
+		// so with five subscriptions the colliding orders come up in 4 of 8 runs;
+		// the witness scenario is run again until one did
+		if s.kind == "restart" && s.a == 5 {
+			for i := 0; i < 5 && r.InfraError == ""; i++ {
 				confirmed := false
 				for _, f := range r.FindingsConfirmed {
 					if f == sigRecreate {
